@@ -27,7 +27,7 @@ func init() {
 		ID:     "C14",
 		Word32: true,
 		Level:  "exploration",
-		Rule: "E1 bounded-exhaustive enumeration: (join) per width w in {1,2,4,8,16,32,64}: every value list of length ≤5 over {0,1,^0,0xa5a5…,1<<63}, and for a set of lengths up to 192/w+1 every list that is 0 everywhere except ≤2 positions taken from the non-zero alphabet values: len(Join) = ceil(len·w/64), Getw(result,i,w) = low w bits of values[i] for every i, popcount(result) = Σ popcount(low w bits) (no other bit set); " +
+		Rule: "E1 bounded-exhaustive enumeration: (join) per width w in {1,2,4,8,16,32,64}: every value list of length ≤5 over {0,1,^0,0xa5a5…,1<<63}, and for a set of lengths up to 192/w+1 every list that is 0 everywhere except ≤2 positions taken from the non-zero alphabet values: len(Join) = ceil(len·w/64), Getw(result,i,w) = low w bits of values[i] for every i, popcount(result) = Σ popcount(low w bits) (no other bit set); (join, runs) lists with RUN structure: a head of 0..64/w+1 other elements, a run of identical elements 1, 2, 8 or 20 words long (±1 element), a tail of 0 or 3, 4 run elements; " +
 			"(slice) every bitmap of ≤3 words over {0,^0,1,1<<63,0xdeadbeefcafebabe} × every 0 ≤ from ≤ to ≤ 64·len: result length ceil((to-from)/64), bit j = input bit from+j, all other bits 0, input unchanged (the argument carries 3 words of spare capacity holding a canary, which must be intact too). (long) Join on lists filling about 20 (thorough 70) words with ≤2 non-zero values at positions within 1 of a word boundary, and Slice on 20/70-word bitmaps (zero or all-ones with one island at every position) × every range with both ends within 1 of a word boundary. (big) Join on lists and Slice on bitmaps whose lengths lie within 9 of every power of two from 2^10 to 2^14 (Slice: 2^12 words). (length sweep) Join on EVERY list length 0..1100 for every width, Slice on bitmaps of EVERY length 1..300 words × 8 ranges. (giant, 64-bit builds) one sparse bitmap of 2^25 words: Slice on every range of ≤300 bits with both ends in {0, 64, 2^30, 2^30+7, MaxInt32-200.., MaxInt32} (13 values) and Getw at the first, middle and last three elements for every width. A case is one Join call with all its Getw probes, or one Slice call; non-trivial when some value/bit is non-zero and the list/range is non-empty.",
 		Assumptions: []string{"other values / word patterns and longer lists are not enumerated"},
 		Run:         c14Run,
@@ -168,6 +168,51 @@ func c14Lengths(c *mc.Ctx, w int32) []int {
 
 func c14Run(c *mc.Ctx) {
 	nz := c14Vals[1:]
+	// (join, runs) lists with RUN structure: a head of h distinct elements (h = 0 .. 64/w+1, so the run starts at
+	// every slot of a word and in the next word), a run of n identical elements (n around 1, 2, 8 and 20 words'
+	// worth, ±1), a tail of 0 or 3 other elements; run element and neighbours from {1, low bits all ones,
+	// alternating, 0 with high garbage}: an implementation may pack repeated elements word-wise
+	for _, w := range c14Widths {
+		w := w
+		per := int(64 / w)
+		type rj struct{ h, n, tail, re int }
+		var rjs []rj
+		for h := 0; h <= per+1; h++ {
+			for _, words := range []int{1, 2, 8, 20} {
+				for d := -1; d <= 1; d++ {
+					n := words*per + d
+					if n < 1 {
+						continue
+					}
+					for _, tail := range []int{0, 3} {
+						for re := 0; re < 4; re++ {
+							rjs = append(rjs, rj{h, n, tail, re})
+						}
+					}
+				}
+			}
+		}
+		c.Expect(int64(len(rjs)))
+		c.Par(len(rjs), func(i int) {
+			j := rjs[i]
+			res := []uint64{1, ^uint64(0), 0xa5a5a5a5a5a5a5a5, 0xfffffffe00000000}
+			var vals []uint64
+			for k := 0; k < j.h; k++ {
+				vals = append(vals, []uint64{0, 2, 0x5a5a5a5a5a5a5a5a}[k%3])
+			}
+			for k := 0; k < j.n; k++ {
+				vals = append(vals, res[j.re])
+			}
+			for k := 0; k < j.tail; k++ {
+				vals = append(vals, []uint64{0, 0x5a5a5a5a5a5a5a5a, 0}[k])
+			}
+			if g, wnt := c14JoinOne(vals, w); g != wnt {
+				c.Fail(11<<50|int64(w)<<40|int64(i), "Join", "Join/runs", c14Case{W: w, Vals: append(gen.Words(nil), vals...)}, g, wnt)
+			}
+			c.Count(1, 1)
+			c.Add("join_run_lists", 1)
+		})
+	}
 	// (join) full products to length 5
 	for _, w := range c14Widths {
 		w := w
